@@ -2,7 +2,7 @@
   Line-protocol verbs for C03.
 
     run <cfg> <steps>          execute a schedule on the tunnel machine
-        cfg   = headLen,bufSize,copyMax,replyLen,replyGran,replyKeep(0|1)[,replyBody]
+        cfg   = headLen,bufSize,copyMax,replyLen,replyGran,replyKeep(0|1)
         steps = `;`-separated: cw:<hex> tw:<hex> fu fd rh:<k> rr:<n> cn dr cu:<n> cd:<n> eu ed ge
         → ok phase=… up=<hex> down=<hex> eofU= eofD= finU= finD= closedC= closedT= expired= dropped=
              early=<hex> availU= availD= accept=
@@ -22,9 +22,6 @@ def decodeCfg (s : String) : Option Cfg :=
   match (splitList s).mapM natOf with
   | some [h, b, m, r, g, k] =>
     some { headLen := h, bufSize := b, copyMax := m, replyLen := r, replyGran := g, replyKeep := k != 0 }
-  | some [h, b, m, r, g, k, rb] =>
-    some { headLen := h, bufSize := b, copyMax := m, replyLen := r, replyGran := g, replyKeep := k != 0,
-           replyBody := rb }
   | _ => none
 
 def decodeStep (s : String) : Option Step :=
